@@ -212,7 +212,9 @@ def run(ctx):
         ok = ctx.coq_build()
         exe = vf.build_driver(ctx)
     exh, rnd, edge = gen_strings(ctx)
-    strings = edge + exh + rnd
+    rr = random.Random(ctx.seed + 5)
+    rend = [render_real(rr)[0] for _ in range(40000 if ctx.thorough else 8000)] + [render_int(rr)[0] for _ in range(2000)]
+    strings = edge + exh + rnd + rend
     if exe:
         correspond(ctx, exe, strings)
     oracle(ctx, 200000 if ctx.thorough else 30000, 20000 if ctx.thorough else 5000, strings)
